@@ -149,6 +149,26 @@ def is_pd(S):
     return True
 
 
+def is_psd(S):
+    """symmetric S positive semidefinite (exact): symmetric elimination, a zero pivot needs a zero row"""
+    n = len(S)
+    if any(S[i][j] != S[j][i] for i in range(n) for j in range(n)):
+        return False
+    T = [list(r) for r in S]
+    for k in range(n):
+        if T[k][k] < 0:
+            return False
+        if T[k][k] == 0:
+            if any(T[k][j] != 0 for j in range(k, n)):
+                return False
+            continue
+        for i in range(k + 1, n):
+            f = T[i][k] / T[k][k]
+            if f != 0:
+                T[i] = [x - f * y for x, y in zip(T[i], T[k])]
+    return True
+
+
 def controllable(A, B):
     n = len(A)
     blocks, cur = [], B
@@ -430,9 +450,29 @@ def cmp_mat(Xm, Xc, env, what):
     return None
 
 
-def mk_lyap_cmp(ctx, tag):
+def mk_lyap_cmp(ctx, tag, psd=False, nil_n=0):
     def cmp(mo, impl):
         ki = kvs(impl)
+        if nil_n and tag == "lyap":
+            # instance check of lyap_nilpotent_stops / lyap_nilpotent_exact on the model's exact run and on the
+            # code's count: A^(2^k) = 0 with 2^k >= n, so n_its <= k + 2 and the exact residual is 0
+            k = max(0, (nil_n - 1).bit_length())
+            kmm = kvs(mo)
+            ctx.count("lyap:nilpotent:exact-return")
+            if not mo.startswith("ok") or int(kmm["its"]) > k + 2 or int(ki.get("its", 99)) > k + 2:
+                return "nilpotent A (n=%d): more than k+2=%d counted iterations" % (nil_n, k + 2)
+            if parse_rat(kmm["res"]) != 0 and int(kmm["its"]) - 1 >= k:
+                return "nilpotent A: exact residual of the model's X is not 0" 
+        if psd and tag == "lyap" and mo.startswith("ok"):
+            # instance check of theorem lyap_psd_return_spec on the model's exact run: for PSD B the exact
+            # residual of the returned X is at most tol * (max abs row sum of A)^2 in every entry
+            kmm = kvs(mo)
+            res, rs = parse_rat(kmm["res"]), parse_rat(kmm["rowsum"])
+            ctx.count("lyap:psd-B:exact-return")
+            if res <= F(LYAP_TOL):
+                ctx.count("lyap:psd-B:exact-residual<=tol")
+            if res > F(LYAP_TOL) * max(F(1), rs * rs):
+                return "exact residual %.3e of the model's X exceeds tol*rowsum^2 for PSD B" % float(res)
         head_m, head_i = mo.split(" ")[0], impl.split(" ")[0]
         km = kvs(mo)
         diffs = parse_rats(km.get("diffs", "-"))
@@ -546,6 +586,9 @@ def run(ctx):
     # ============================ Lyapunov ========================================================
     def lyap_case(A, B, max_it, kind, spec=True, scalar=False):
         n = len(A)
+        psd = is_psd(B)
+        if psd:
+            ctx.count("lyap:B-is-PSD")
         An, Bn = to_np(A), to_np(B)
         if scalar:
             Aa, Ba = float(A[0][0]), float(B[0][0])
@@ -571,7 +614,7 @@ def run(ctx):
         nt = n >= 2 and st == "ok" and its >= 3
         tolr = "x%016x" % int.from_bytes(np.float64(LYAP_TOL).tobytes(), "little")
         cases.append(Case("C06 lyap A=%s B=%s tol=%s maxit=%d" % (ratm_line(A), ratm_line(B), tolr, max_it), impl,
-                          nontrivial=nt, cmp=mk_lyap_cmp(ctx, "lyap"), tag="lyap"))
+                          nontrivial=nt, cmp=mk_lyap_cmp(ctx, "lyap", psd=psd, nil_n=(n if kind == "nilpotent" else 0)), tag="lyap"))
         cases.append(Case("C06 lyapf A=%s B=%s tol=%s maxit=%d" % (fxm(An.tolist()), fxm(Bn.tolist()), tolr, max_it), impl,
                           nontrivial=nt, cmp=mk_lyap_cmp(ctx, "lyapf"), tag="lyapf"))
         if st == "ok" and spec:
@@ -614,7 +657,7 @@ def run(ctx):
     for a, b in [(F(1, 2), F(1)), (F(-7, 8), F(3)), (F(0), F(2)), (F(15, 16), F(1, 4))]:
         lyap_case([[a]], [[b]], 50, "scalar", scalar=True)
     # nilpotent A: converges exactly, diff = 0
-    for n in (2, 3, 4):
+    for n in (2, 3, 4) * ctx.n(3, 12):
         Nl = [[F(int(j == i + 1)) * dy(rng, 1, 3, 1) for j in range(n)] for i in range(n)]
         T, Ti = unimodular(rng, n, steps=4)
         lyap_case(mm(mm(T, Nl), Ti), gen_sym_psd(rng, n)[0], 50, "nilpotent")
